@@ -7,7 +7,7 @@ from hypothesis import strategies as st
 from vt import core, gen
 from vt.core import Checker, lib, dense, DT, UNIT, fro
 
-RULE = ("Square systems of order 2-5 with modes 2-12 (<= 2000 unknowns) from three well-conditioned classes built by the "
+RULE = ("[complex128: 1/4 of the cases apply a diagonal unitary similarity per mode to the operator (same spectrum, Hermitian where it was symmetric) and draw complex right-hand sides / initial guesses.] Square systems of order 2-5 with modes 2-12 (<= 2000 unknowns) from three well-conditioned classes built by the "
         "checker: SPD = sum of <=3 Kronecker products of SPD factors (overall condition <= 50), Laplacian-like = "
         "sum_k I x..x (tridiag(-1,2,-1)+sigma I) x..x I in its rank-2 TT form, diagonally dominant = I + E with "
         "||E||_F = 0.3 and ranks 1-3; right-hand side = Gaussian TT of ranks 1-4 (not built from a low-rank solution); "
@@ -16,7 +16,7 @@ RULE = ("Square systems of order 2-5 with modes 2-12 (<= 2000 unknowns) from thr
         "Oracle: x is a TT tensor of shape b.N and ||A x - b|| <= 5 eps ||b|| with A x formed densely by the checker. "
         "Non-trivial: iterative local solver used, or preconditioner set, or x0 given.")
 BUDGET = {"quick": 1280, "thorough": 32000}
-FLOORS = {"quick": {"class:spd": 100, "class:laplace": 100, "class:dd": 100, "prec:c": 100, "prec:r": 100,
+FLOORS = {"quick": {"dt:c128": 150, "class:spd": 100, "class:laplace": 100, "class:dd": 100, "prec:c": 100, "prec:r": 100,
                     "solver:gmres": 60, "solver:bicgstab": 60, "solver:direct_if_small": 150, "x0": 100}}
 SHRINK = {"quick": False, "thorough": True}
 ASSUMPTIONS = ["use_cpp=False (C17 covers the compiled backend)", "torch.manual_seed(lib_seed) pins the internal randomness",
@@ -62,6 +62,9 @@ def strategy_case(draw):
         case["x0_zero"] = draw(st.sampled_from([None, None, None, None, "zeros", "zero_core"]))
     elif draw(st.floats(0, 1)) < 0.15:
         case["x0_is_rhs"] = True        # amen_solve(A, b, x0=b): the right-hand side as initial guess
+    # complex data: the same classes after a diagonal unitary similarity per mode (Hermitian positive definite / Laplacian-like /
+    # diagonally dominant with the same spectrum), complex right-hand side and initial guess
+    case["dt"] = draw(st.sampled_from(["f64", "f64", "f64", "c128"]))
     return case
 
 
@@ -72,7 +75,8 @@ def strategy(tier):
 def features(case):
     it = case["max_full"] == 0
     return {"class": case["class"], "prec": case["prec"], "iterative": it,
-            "local_solver": case["local_solver"] if it else 0, "order": len(case["N"]), "x0": "x0_R" in case}
+            "local_solver": case["local_solver"] if it else 0, "order": len(case["N"]), "x0": "x0_R" in case,
+            "dt": case.get("dt", "f64")}
 
 
 def stack_sum(list_of_cores):
@@ -139,7 +143,15 @@ def build_system(case):
         E[0] = E[0] * (0.3 / nE)
         I = [torch.eye(n, dtype=torch.float64).reshape(1, n, n, 1) for n in N]
         A = stack_sum([I, E])
-    b = core.make_cores({"N": N, "R": case["Rb"], "dt": "f64", "mode": "gauss", "seed": case["seed"] + 5})
+    dt = case.get("dt", "f64")
+    if dt == "c128":
+        Ac = []
+        for k, c in enumerate(A):
+            th = torch.rand(N[k], generator=g, dtype=torch.float64) * (2 * math.pi)
+            ph = torch.polar(torch.ones(N[k], dtype=torch.float64), th)
+            Ac.append(c.to(torch.complex128) * ph.reshape(1, -1, 1, 1) * ph.conj().reshape(1, 1, -1, 1))
+        A = Ac
+    b = core.make_cores({"N": N, "R": case["Rb"], "dt": dt, "mode": "gauss", "seed": case["seed"] + 5})
     if case.get("b_kind") == "zero":
         kz = case["seed"] % d
         b[kz] = torch.zeros_like(b[kz])
@@ -148,7 +160,7 @@ def build_system(case):
     elif case.get("b_kind") == "unit_pair":
         b = []
         for n in N:
-            c = torch.zeros(1, n, 1, dtype=torch.float64)
+            c = torch.zeros(1, n, 1, dtype=DT[dt])
             c[0, 0, 0] = 1.0
             b.append(c)
     return A, b
@@ -174,12 +186,12 @@ def build_operands(T, ck, case):
     solver = "direct_if_small" if not it else ("gmres" if case["local_solver"] == 1 else "bicgstab")
     if it and case["local_solver"] == 1 and case.get("gmres", [40, 2])[0] < 40:
         ck.label("gmres_short_restarts")
-    ck.label("class:" + case["class"], "prec:%s" % case["prec"], "solver:" + solver, "order:%d" % d,
+    ck.label("dt:" + case.get("dt", "f64"), "class:" + case["class"], "prec:%s" % case["prec"], "solver:" + solver, "order:%d" % d,
              "eps_decade:%d" % int(math.floor(math.log10(eps))))
     x0 = None
     if "x0_R" in case:
         ck.label("x0")
-        x0c = core.make_cores({"N": N, "R": case["x0_R"], "dt": "f64", "mode": "gauss", "seed": case["seed"] + 7})
+        x0c = core.make_cores({"N": N, "R": case["x0_R"], "dt": case.get("dt", "f64"), "mode": "gauss", "seed": case["seed"] + 7})
         if case.get("x0_zero") == "zero_core":
             kz = case["seed"] % len(N)
             x0c[kz] = torch.zeros_like(x0c[kz])
@@ -187,7 +199,7 @@ def build_operands(T, ck, case):
             ks = (case["seed"] // 7) % len(N)
             x0c[ks] = x0c[ks] * (10.0 ** case["x0_scale"])
             ck.label("x0_far")
-        x0 = T.TT(x0c) if case.get("x0_zero") != "zeros" else T.zeros(list(N))
+        x0 = T.TT(x0c) if case.get("x0_zero") != "zeros" else T.zeros(list(N), dtype=DT[case.get("dt", "f64")])
         if case.get("x0_zero"):
             ck.label("x0_zero")
     if case.get("b_kind", "random") != "random":
@@ -195,7 +207,7 @@ def build_operands(T, ck, case):
     if case.get("b_kind") == "unit_pair":
         x0c = []
         for j, n in enumerate(N):
-            c = torch.zeros(1, n, 1, dtype=torch.float64)
+            c = torch.zeros(1, n, 1, dtype=DT[case.get("dt", "f64")])
             c[0, (1 if (j == len(N) - 1 and n > 1) else 0), 0] = 1.0
             x0c.append(c)
         x0 = T.TT(x0c)
